@@ -4,17 +4,20 @@
 -/
 import Logg.Drive.C01
 import Logg.Drive.C11
+import Logg.Drive.C12
 
 open Logg
 
 structure DriverState where
   c01 : GateState := { g := {}, levels := [] }
   c11 : List ModeBits := []
+  c12 : List (Int × Int) := []
 
 def dispatch (st : DriverState) (line : String) : DriverState × String :=
   match (line.splitOn " ").filter (· ≠ "") with
   | "C01" :: rest => let (s, o) := Drive.C01.step st.c01 rest; ({ st with c01 := s }, o)
   | "C11" :: rest => let (s, o) := Drive.C11.step st.c11 rest; ({ st with c11 := s }, o)
+  | "C12" :: rest => let (s, o) := Drive.C12.step st.c12 rest; ({ st with c12 := s }, o)
   | _ => (st, "bad-op")
 
 partial def loop (h : IO.FS.Stream) (out : IO.FS.Stream) (st : DriverState) : IO Unit := do
